@@ -14,7 +14,13 @@ THEOREMS = ['C16.translation_succeeds', 'C16.translation_accepted', 'C16.layout_
             'C16.converter_translated', 'C16.converter_text_state', 'C16.converter_text_is_the_model',
             'C16.translation_text_is_the_model',
             'C16.spec_coherent_of_shape', 'C16.in_fragment_of_shape', 'C16.converter_text_is_the_model_of_shape',
-            'C16.translation_text_is_the_model_of_shape', 'C16.fragment_shape_example']
+            'C16.translation_text_is_the_model_of_shape', 'C16.fragment_shape_example', 'C16.notation_example',
+            'C16.notation_axiom_is_body_image', 'C16.image_without_notations',
+            # accepted by the checker TEXT (Props/C16b.lean): bytes of the translated serializer methods for the translation's calls are
+            # accepted by the translated lib.rs verify, the target's image is valid; from the text side for FragmentShape databases
+            'C16.translation_bytes_accepted_by_rust_text', 'C16.accepted_translation_bytes', 'C16.translation_u8_accepted',
+            'C16.translation_full_text_is_the_model', 'C16.translation_text_bytes_accepted_by_rust_text', 'C16.translation_text_run_accepted',
+            'C16.translation_text_sound', 'C16.exDB_accepted', 'C16.ExampleCanon.db_text_accepted', 'C16.ExampleCanon.db_text_sound']
 
 
 def image(t, float_order):
@@ -48,18 +54,22 @@ def term_sx(db, t):
 
 
 def sym_id(db, name):
-    return int(name[1:])
+    # constants / constructors are s<k>; declared notations (mmgen3.NotDB) are n<k>: numbered apart from the symbols
+    return 1000 + int(name[1:]) if name[0] == 'n' else int(name[1:])
 
 
 def model_spec(db, goal, table, steps):
     """the database, target and decoded proof in the protocol of the Lean model (`mmverify`, `mmxlate`)"""
     vi = db.vars.index
-    ctors = [(c, []) for c in db.consts] + [(f, db.ctor_vars[f]) for f in db.ctors]
+    ctors = [(c, [], None) for c in db.consts] + [(f, db.ctor_vars[f], None) for f in db.ctors]
+    # declared notations, in database order: `(sym (args) (body TERM))`
+    ctors += [(n, args, body) for n, (args, body) in getattr(db, 'notations', {}).items()]
     rules = [([], t) for _, t in db.axioms] + [(h, c) for _, h, c in db.rules]
     rule_labels = [lab for lab, _ in db.axioms] + [lab for lab, _, _ in db.rules]
     dbs = '(db (%s) (imp %d %d) (app %d %d) (ctors %s) (rules %s) (p1 %d %d) (p2 %d %d %d) (mp %d %d))' % (
         ' '.join(str(vi(v)) for v in db.float_order), vi(db.imp_vars[0]), vi(db.imp_vars[1]), vi(db.app_vars[0]), vi(db.app_vars[1]),
-        ' '.join('(%d (%s))' % (sym_id(db, c), ' '.join(str(vi(a)) for a in args)) for c, args in ctors),
+        ' '.join('(%d (%s)%s)' % (sym_id(db, c), ' '.join(str(vi(a)) for a in args), '' if body is None else ' (body %s)' % term_sx(db, body))
+                 for c, args, body in ctors),
         ' '.join('((%s) %s)' % (' '.join(term_sx(db, h) for h in hs), term_sx(db, c)) for hs, c in rules),
         vi(db.p1_vars[0]), vi(db.p1_vars[1]), vi(db.p2_vars[0]), vi(db.p2_vars[1]), vi(db.p2_vars[2]), vi(db.mp_vars[0]), vi(db.mp_vars[1]))
 
@@ -70,7 +80,7 @@ def model_spec(db, goal, table, steps):
                 return '(f %d)' % vi(x)
             if x in ('imp', 'app'):
                 return x
-            return '(ctor %d)' % [c for c, _ in ctors].index(x)
+            return '(ctor %d)' % [c for c, _, _ in ctors].index(x)
         if lab in rule_labels:
             return '(rule %d)' % rule_labels.index(lab)
         return {'proof-rule-prop-1': 'p1', 'proof-rule-prop-2': 'p2', 'proof-rule-mp': 'mp'}[lab]
@@ -109,8 +119,8 @@ def make_case(rng, quick):
 
 
 def make_ncase(rng, quick):
-    """a database WITH declared notations (`$a #Notation`): outside the Lean model's fragment, inside the property's
-    quantifier — real pipeline vs the independent structural image (notations expanded), checker, layouts"""
+    """a database WITH declared notations (`$a #Notation`): real pipeline vs the Lean model (`Ctor.body`, byte for byte) and vs
+    the independent structural image (notations expanded at the term level, `mmgen3.image`), checker, layouts"""
     db = mmgen3.NotDB(rng, nv=rng.choice((3, 3, 4)), n_consts=rng.randint(1, 3), n_ctors=rng.randint(1, 2), n_axioms=rng.randint(1, 3),
                       n_rules=rng.randint(0, 2), with_app=rng.random() < 0.8, shuffle_floats=rng.random() < 0.6,
                       shuffle_roles=rng.random() < 0.5)
@@ -123,18 +133,52 @@ def make_ncase(rng, quick):
     mand = [f'{x}-is-pattern' for x in db.float_order if x in gv]
     arity = {lab: (0 if e[0] in ('f', 'e') else len(e[2]) + len(e[3])) for lab, e in v.labels.items()}
     variants = {'plain': mm.compress(steps, mand)[0], 'reuse': mm.compress_with_reuse(rng, steps, arity, mand)[0]}
-    out = {}
+    out, specs, proofs = {}, {}, {}
     for name, proof in variants.items():
         full = st + [('p', 'goal', ['|-'] + mm.term_toks(goal), proof)]
         mm.verify(full)
         out[name] = mm.print_db(full)
+        labels, nums = mm.split_compressed(proof)
+        specs[name] = model_spec(db, goal, mand + labels, nums)
+        proofs[name] = (labels, nums)
     axioms = [mmgen3.image(db, t) for _, t in db.axioms]
     for _, hyps, concl in db.rules:
         p = mmgen3.image(db, concl)
         for h in reversed(hyps):
             p = ('imp', mmgen3.image(db, h), p)
         axioms.append(p)
-    return {'sources': out, 'db': db, 'goal': goal, 'claim': mmgen3.image(db, goal), 'axioms': axioms, 'n_vars': len(set(gv)), 'notations': True}
+    return {'sources': out, 'specs': specs, 'proofs': proofs, 'mand': mand, 'header': st, 'db': db, 'goal': goal,
+            'claim': mmgen3.image(db, goal), 'axioms': axioms, 'n_vars': len(set(gv)), 'notations': True}
+
+
+def nested_notation(db, t, under=False):
+    """a declared notation applied (directly or deeper) to a term that uses a declared notation"""
+    if isinstance(t, str):
+        return under and t in db.notations
+    here = t[0] in db.notations
+    if under and here:
+        return True
+    return any(nested_notation(db, a, under or here) for a in t[1:])
+
+
+def forward_notation_case():
+    """`n0 x := n1 x x` declared BEFORE `n1 x y := s2 y x`; axiom `|- ph0`; target `|- ( \\imp ( n0 s0 ) ( n1 s0 s0 ) )` (both sides denote `s2 s0 s0`)"""
+    rng = random.Random(7)
+    db = mmgen3.NotDB(rng, nv=3, n_consts=1, n_ctors=0, n_axioms=0, n_rules=0, with_app=False, shuffle_floats=False, shuffle_roles=False)
+    db.consts = ['s0']
+    db.ctors = {'s2': 2}
+    db.ctor_vars = {'s2': ['ph0', 'ph1']}
+    db.notations = {'n0': (['ph0'], ('n1', 'ph0', 'ph0')), 'n1': (['ph0', 'ph1'], ('s2', 'ph1', 'ph0'))}
+    db.axioms = [('ax0', 'ph0')]
+    db.rules = []
+    st = db.header()
+    v = mm.verify(st)
+    goal = ('\\imp', ('n0', 's0'), ('n1', 's0', 's0'))
+    steps = mm.ProofBuilder(db, v).assertion_steps('ax0', {'ph0': goal}, [])
+    proof = mm.compress(steps, [])[0]
+    full = st + [('p', 'goal', ['|-'] + mm.term_toks(goal), proof)]
+    mm.verify(full)
+    return {'source': mm.print_db(full), 'claim': mmgen3.image(db, goal)}
 
 
 def encode_steps(nums):
@@ -204,7 +248,7 @@ def unhex(h):
 
 def run(rep):
     rng = random.Random(rep.seed * 1000003 + 16)
-    ok, detail = core.proof_gate(rep, 'Pi2.Props.C16', THEOREMS)
+    ok, detail = core.proof_gate(rep, 'Pi2.Props.C16b', THEOREMS)
     core.rust_build()
     quick = rep.tier == 'quick'
     cases = [make_case(rng, quick) for _ in range(50 if quick else 1000)]
@@ -219,9 +263,9 @@ def run(rep):
             hx = src.encode().hex()
             for mode in ('opt', 'plain', 'memo'):
                 lines.append(f'mmtranslate {hx} goal {mode}'); idx.append((i, name, mode))
-    for j, c in enumerate(ncases):       # declared notations: plain and optimised pipelines (no Lean model of these databases)
+    for j, c in enumerate(ncases):       # declared notations: the same three runs
         for name, src in c['sources'].items():
-            for mode in ('opt', 'plain'):
+            for mode in ('opt', 'plain', 'memo'):
                 lines.append(f'mmtranslate {src.encode().hex()} goal {mode}'); idx.append((len(cases) + j, name, mode))
     seeds = (0, 3) if quick else (0, 1, 2, 3, 4, 5)
     per_seed = {sd: core.py_h(lines, hashseed=sd) for sd in seeds}
@@ -236,7 +280,7 @@ def run(rep):
 
     # ---- 2. the Lean model on the same inputs: verifier verdict, hypothesis `wf`, bytes of both pipelines
     ml, mi = [], []
-    for i, c in enumerate(cases):
+    for i, c in enumerate(allcases):     # notation-free databases and databases with declared notations alike
         for name in c['sources']:
             ml.append('mmverify ' + c['specs'][name]); mi.append((i, name, 'verify'))
             ml.append('mmxlate (memo) ' + c['specs'][name]); mi.append((i, name, 'plain'))
@@ -245,22 +289,25 @@ def run(rep):
                 ml.append(f'mmxlate {memo} ' + c['specs'][name]); mi.append((i, name, 'opt'))
     ma = core.lean_drv(ml)
     n_model = 0
+    n_model_not = 0
     for (i, name, what), a in zip(mi, ma):
-        src = cases[i]['sources'][name]
+        src = allcases[i]['sources'][name]
         if what == 'verify':
             if a != '(verify true wf true)':
-                findings.append({'key': 'model-verifier', 'model': a, 'database': src[-2500:], 'spec': cases[i]['specs'][name],
+                findings.append({'key': 'model-verifier', 'model': a, 'database': src[-2500:], 'spec': allcases[i]['specs'][name],
                                  'what': f'correspondence: the Lean Metamath verifier / wf predicate says {a} on a proof the independent verifier accepts'})
             continue
         r = real[(i, name, what)]
         n_model += 1
+        n_model_not += i >= len(cases)
         if (a if a.startswith('(ok') else '(raise') != (r if r.startswith('(ok') else '(raise'):
             findings.append({'key': 'model-bytes', 'pipeline': what, 'model': a[:600], 'python': r[:600], 'database': src[-2500:],
-                             'spec': cases[i]['specs'][name],
+                             'spec': allcases[i]['specs'][name],
                              'what': f'correspondence: translate.exec_proof and the Lean model of it differ ({what} pipeline, {name} layout)'})
 
     # ---- 3. invalid proofs: verdicts of the two verifiers, outcomes of the two translators
     muts = [m for m in (mutate_case(rng, rng.choice(cases)) for _ in range(60 if quick else 1500)) if m]
+    muts += [m for m in (mutate_case(rng, rng.choice(ncases)) for _ in range(30 if quick else 600)) if m]
     mr = core.py_h([f'mmtranslate {m["source"].encode().hex()} goal plain' for m in muts])
     mv = core.lean_drv(sum(([f'mmverify {m["spec"]}', f'mmxlate (memo) {m["spec"]}'] for m in muts), []))
     n_invalid = 0
@@ -332,6 +379,24 @@ def run(rep):
             findings.append({'key': 'layout-dependent', 'what': 'the outcome depends on the compression layout (with / without reuse marks) or on --optimize',
                              'outcomes': {str(k): str(v)[:400] for k, v in d.items()}, 'database': allcases[i]['sources']['reuse'][-2000:]})
 
+    # ---- 4c. a notation whose body mentions a notation declared LATER (`n0 := ( n1 x x )`, `n1` declared after it): the converter builds
+    #          the closure of `n0` while only the earlier notations are in scope (`_top_down` imports the notations in file order), so
+    #          `n1` stays an opaque symbol inside `n0` but is expanded where it is written directly.  Probe with a target that uses both.
+    fw = forward_notation_case()
+    fa = core.py_h([f'mmtranslate {fw["source"].encode().hex()} goal plain'])[0]
+    if fa.startswith('(ok'):
+        x = sx.parse(fa)[0]
+        jr = core.lean_drv([f'journal {x[1]} {x[2]} {x[3]}'])[0]
+        if jr.startswith('(journal'):
+            jx = sx.parse(jr)[0]
+            gcl = [sx.pat_of_sx(t) for t in jx[2][1:]]
+            problem = 'no claim' if len(gcl) != 1 else unify_syms(fw['claim'], gcl[0], {}, {})
+            if problem:
+                findings.append({'key': 'notation-forward-reference', 'journal': jr[:1200], 'database': fw['source'][-1500:], 'expected_claim': sx.pat_to_s(fw['claim']),
+                                 'what': 'a notation whose body mentions a notation declared after it: the published claim is not the structural image of the target (' + problem + ')'})
+    else:
+        findings.append({'key': 'translate-raises', 'layout': 'forward-notation', 'python': fa, 'database': fw['source'][-1500:],
+                         'what': f'translation of a valid proof over a database with a forward-referencing notation fails: {fa}'})
     # ---- 5. long proofs (memory slots) and the shipped benchmarks
     n_chain = 0
     chains = [chain_case(rng, n) for n in ((30, 120) if quick else (30, 120, 200, 260))]
@@ -387,17 +452,27 @@ def run(rep):
                 'outcome of model vs real translator; real checker verdict; publish journal vs structural image; long chains; %d shipped benchmarks'
                 % (len(seeds), n_bench),
         'programs': len(lines), 'disagreements_checked': len(findings), 'accepted_by_real_checker': n_acc, 'model_byte_comparisons': n_model,
+        'model_byte_comparisons_with_declared_notations': n_model_not,
         'mutated_proofs': len(muts), 'mutated_invalid': n_invalid,
         'targets_by_metavariables': {str(k): sum(1 for c in cases if c['n_vars'] == k) for k in range(4)},
         'shuffled_float_order': sum(1 for c in cases if c['db'].float_order != c['db'].vars),
         'databases_with_declared_notations': len(ncases),
         'notation_uses_in_targets_axioms_rules': sum(sum(mm.term_toks(t).count(n) for n in c['db'].notations for t in [c['goal']] + [t for _, t in c['db'].axioms] + [x for _, hs, cc in c['db'].rules for x in hs + [cc]]) for c in ncases),
         'notation_bodies_applying_a_constructor': sum(1 for c in ncases for _, b in c['db'].notations.values() if any(x in c['db'].ctors for x in mm.term_toks(b))),
+        'notation_bodies_using_an_earlier_notation': sum(1 for c in ncases for _, b in c['db'].notations.values() if any(x in c['db'].notations for x in mm.term_toks(b))),
+        'notations_without_arguments': sum(1 for c in ncases for a, _ in c['db'].notations.values() if not a),
+        'notation_applied_to_a_notation_in_targets_axioms_rules': sum(1 for c in ncases for t in [c['goal']] + [t for _, t in c['db'].axioms] + [x for _, hs, cc in c['db'].rules for x in hs + [cc]] if nested_notation(c['db'], t)),
         'samples': [cases[0]['sources']['reuse'][-700:], pa[0][:200]],
     })
-    rep.assumptions += ['the THEOREMS are about fragment F0 of DESIGN.md (no declared #Notation sugar, no #Substitution, no $d); databases with declared notations '
-                        '(vlib/mmgen3.py) are covered by the real pipeline vs independent structural image (notations expanded) + checker + layouts only; '
+    rep.assumptions += ['the THEOREMS are about fragment F0 of DESIGN.md extended with declared #Notation sugar (DB.wf: a notation symbol has one constructor axiom, '
+                        'its body mentions its own variables and, of the notation symbols, earlier ones only; no #Substitution, no $d); databases with declared '
+                        'notations (vlib/mmgen3.py) go through the same Lean model (mmverify / mmxlate, byte for byte) as the notation-free ones AND through the '
+                        'independent structural image (notations expanded at the term level) + checker + layouts; the text ties (exec_proof_*, converter_*, '
+                        'translation_text_*) relate the source text to the model on notation-free databases (dbOfMDb produces no notations); '
                         'targets citing an earlier $p are unsupported by the translator',
+                        'observed on the real converter, outside DB.wf: a notation body that mentions a notation declared LATER keeps that symbol as a plain '
+                        'symbol application (the closure is built when only the earlier notations are in scope) — the Lean model does the same (DB.notTab), '
+                        'and the published claim is then not the fully expanded image; the generator (mmgen3) only produces bodies over earlier notations',
                         'theorems are about the Lean model of exec_proof (Pi2/MM/Translate.lean); the tie to translate.py is the byte-for-byte correspondence above',
                         'symbols named in order of first serialisation (CanonCalls) in translation_accepted']
     seen = set()
